@@ -1340,6 +1340,7 @@ fn main() {
 	let mut meta_path = String::new();
 	let mut mode = "full".to_string();
 	let mut canary = false;
+	let mut raw = false;
 	let mut canary_fns: Option<Vec<String>> = None;
 	let mut prelude_dir = "/verif/prelude".to_string();
 	let mut i = 1;
@@ -1370,6 +1371,7 @@ fn main() {
 				i += 1
 			}
 			"--canary" => canary = true,
+			"--raw" => raw = true,
 			"--canary-fns" => {
 				canary = true;
 				canary_fns = Some(args[i + 1].split(',').map(|x| x.to_string()).collect());
@@ -1441,14 +1443,14 @@ fn main() {
 		tok_src_total: 0,
 		fn_meta: vec![],
 	};
-	ctx.out.buf.push_str(&format!(
+	if !raw { ctx.out.buf.push_str(&format!(
 		"// GENERATED by /verif/tools/vx from {} (mode={}{}) — do not edit\n#![allow(unused)]\nuse vstd::prelude::*;\nuse std::collections::HashMap;\nuse std::collections::HashSet;\nuse std::marker::PhantomData;\nverus! {{\n",
 		unit_path,
 		mode,
 		if canary { ", canary" } else { "" }
-	));
+	)); } else { ctx.out.buf.push_str("// RAW extraction by /verif/tools/vx (verbatim item text; only attributes/doc comments and logging statements dropped)\n"); }
 	let mut prelude_ranges = vec![];
-	for p in &cfg.prelude {
+	for p in cfg.prelude.iter().filter(|_| !raw) {
 		let pp = format!("{}/{}", prelude_dir, p);
 		let t = std::fs::read_to_string(&pp).unwrap_or_else(|e| die(&format!("{}: {}", pp, e)));
 		let s = ctx.out.buf.len();
@@ -1458,7 +1460,7 @@ fn main() {
 		prelude_ranges.push(json!({"file": p, "out_start": s, "out_end": ctx.out.buf.len()}));
 	}
 	let spec_start = ctx.out.buf.len();
-	if !cfg.spec.is_empty() {
+	if !cfg.spec.is_empty() && !raw {
 		ctx.out.buf.push_str("// ---- unit spec (hand-written: spec fns, lemmas, assumed stubs)\n");
 		ctx.out.buf.push_str(&cfg.spec);
 		ctx.out.buf.push('\n');
@@ -1695,6 +1697,11 @@ fn main() {
 			seq += 1_000_000;
 			apply_replaces(src, src_span.0, src_span.1, &it.replace, &mut edits, &mut ctx.rules, &mut seq);
 		}
+		if raw {
+			edits.retain(|e| e.rule == "D1" || e.rule == "D2");
+			pre.clear();
+			post.clear();
+		}
 		ctx.out.buf.push_str(&pre);
 		let mut r = Renderer::new(src, file_idx, edits.clone());
 		let seg_start = ctx.out.segs.len();
@@ -1739,12 +1746,12 @@ fn main() {
 		}));
 	}
 	let tail_start = ctx.out.buf.len();
-	if !cfg.tail.is_empty() {
+	if !cfg.tail.is_empty() && !raw {
 		ctx.out.buf.push_str("// ---- unit tail (hand-written: witness calls, lemmas)\n");
 		ctx.out.buf.push_str(&cfg.tail);
 		ctx.out.buf.push('\n');
 	}
-	ctx.out.buf.push_str("\n} // verus!\nfn main() {}\n");
+	if !raw { ctx.out.buf.push_str("\n} // verus!\nfn main() {}\n"); }
 
 	std::fs::write(&out_path, &ctx.out.buf).unwrap_or_else(|e| die(&format!("{}: {}", out_path, e)));
 
